@@ -480,6 +480,86 @@ func runCase(t ev.TB, c *caseSpec) {
 		}
 		ev.Extra(partModel, "lookups", int64(2*repeats))
 	}
+
+	// "When no such subset, or no host in it, exists the configured fallback applies": a subset whose hosts are all
+	// unhealthy has no host to offer - its balancer returns none - and the fallback takes over, exactly as for an empty
+	// one (subsetLoadBalancer.ChooseHost tests `hostChosen && host != nil` for that). One query that selected a subset
+	// is repeated after every host of that subset failed its health check; only ChooseHost is judged (HostNum and
+	// IsExistsHosts count members, healthy or not), and only what the fallback policy says: hosts outside the policy's
+	// set are never returned, and while the policy's set has a healthy host not every lookup comes back empty.
+	for qi := range c.Queries {
+		q := &c.Queries[qi]
+		exp := model(c, q)
+		if exp.Branch != "subset" {
+			continue
+		}
+		sick := map[string]bool{}
+		for _, h := range hosts {
+			if exp.Set[h.AddressString()] {
+				h.SetHealthFlag(api.FAILED_ACTIVE_HC)
+				sick[h.AddressString()] = true
+			}
+		}
+		fb := map[string]bool{}
+		switch c.Fallback {
+		case 1:
+			for i := range c.Hosts {
+				fb[c.Hosts[i].Addr] = true
+			}
+		case 2:
+			for i := range c.Hosts {
+				if hostHas(&c.Hosts[i], c.Default) {
+					fb[c.Hosts[i].Addr] = true
+				}
+			}
+		}
+		healthyFb := 0
+		for a := range fb {
+			if !sick[a] {
+				healthyFb++
+			}
+		}
+		ev.Class(partModel, fmt.Sprintf("subset-all-unhealthy:fallback=%d", c.Fallback))
+		if healthyFb > 0 {
+			ev.Class(partModel, "subset-all-unhealthy:fallback-has-healthy-host")
+		}
+		repeats := 4*len(c.Hosts) + 4
+		for i, lb := range lbs {
+			name := builders[i].name
+			nils := 0
+			chosen := map[string]int{}
+			if p, st := safely(func() {
+				ctx := &lbCtx{mmc: criteriaOf(q)}
+				for r := 0; r < repeats; r++ {
+					if h := lb.ChooseHost(ctx); h == nil {
+						nils++
+					} else {
+						chosen[h.AddressString()]++
+					}
+				}
+			}); p != nil {
+				ev.Fail(t, partModel, "subset/lookup-panics:"+name+":subset-all-unhealthy", "%s: lookup %+v panicked: %v\ncase %s\n%s", name, *q, p, desc(), st)
+			}
+			for addr, cnt := range chosen {
+				if !fb[addr] && !sick[addr] {
+					ev.Fail(t, partModel, "subset/choose-outside-allowed-set:"+name+":subset-all-unhealthy",
+						"%s: with every host of the selected subset %v unhealthy ChooseHost returned %s (%d of %d lookups) for criteria %v; the fallback policy %d allows only %v\ncase %s",
+						name, setList(exp.Set), addr, cnt, repeats, q.Criteria, c.Fallback, setList(fb), desc())
+				}
+			}
+			if healthyFb > 0 && nils == repeats {
+				ev.Fail(t, partModel, "subset/fallback-not-applied-when-the-subset-has-no-healthy-host:"+name,
+					"%s: every host of the selected subset %v is unhealthy and the fallback policy %d offers %d healthy host(s) of %v, but all %d lookups for criteria %v returned no host\ncase %s",
+					name, setList(exp.Set), c.Fallback, healthyFb, setList(fb), repeats, q.Criteria, desc())
+			}
+		}
+		for _, h := range hosts {
+			if sick[h.AddressString()] {
+				h.ClearHealthFlag(api.FAILED_ACTIVE_HC)
+			}
+		}
+		break
+	}
 }
 
 func setList(s map[string]bool) []string {
